@@ -14,6 +14,19 @@ CHECKS = {
             'generated with Hypothesis/PRNG. Exhaustive only inside the bound, sampling beyond it.',
             'trusts the reference matcher vlib/urlmodel.py (written from the docs) and Python int()/float() as the definition of a valid literal',
             'DESIGN.md §4 C05, §3 M2'),
+    'C06': ('exploration',
+            'Hypothesis-generated routing tables x full request catalogue against a reference dispatcher (model-based)',
+            'Random routing tables (constructor list or add(entry,index) sequences) are each sent 96 requests; status, answering '
+            'route, Allow set and route order are compared with an independent dispatcher model built on the reference matcher.',
+            'trusts vlib/dispatchmodel.py + vlib/urlmodel.py; mirrors werkzeug leading-slash collapse (O11)',
+            'DESIGN.md §4 C06, §3 M3'),
+    'C07': ('exploration',
+            'Hypothesis-generated route/mode/path/query cases; reference dispatcher decides whether a redirect is due; redirect-follow round trip',
+            'For generated slash-mode configurations (application, route, embedded, inherited or not), decoded segments with '
+            'URL-significant characters and arbitrary query strings, a due redirect is parsed with urllib, compared with the '
+            'canonical path and query, and followed: it must reach the same route with the same parameters in one hop.',
+            'trusts urllib.parse and the reference models; query strings that are not URL-legal are compared after percent-decoding',
+            'DESIGN.md §4 C07'),
 }
 
 PENDING_REASON = 'check not built yet in this session (planned, see DESIGN.md §4); not claimed until it runs quietly on the unchanged tree'
